@@ -26,7 +26,8 @@ namespace
   struct Blob
   {
     std::string bytes;
-    std::uint64_t get_checkpoint_size(LAFEM::SerialConfig&) { return bytes.size(); }
+    // an upper bound, as for compressed containers: the real size is what set_checkpoint_data returns
+    std::uint64_t get_checkpoint_size(LAFEM::SerialConfig&) { return bytes.size() + 5; }
     std::uint64_t set_checkpoint_data(std::vector<char>& data, LAFEM::SerialConfig&) { data.insert(data.end(), bytes.begin(), bytes.end()); return bytes.size(); }
     void restore_from_checkpoint_data(std::vector<char>& data) { bytes.assign(data.begin(), data.end()); }
   };
